@@ -61,6 +61,29 @@ type Number interface {
 }
 */
 
+// HoldsFunction tells if o is, or contains (at any depth of arrays and maps), a function.
+// A function made during a call captures the environment of that call: state, that a later call must not share.
+func HoldsFunction(o Object) bool {
+	o = Value(o)
+	switch o.Type() { //nolint:exhaustive // only functions and containers matter.
+	case FUNC:
+		return true
+	case ARRAY:
+		for _, el := range Elements(o) {
+			if HoldsFunction(el) {
+				return true
+			}
+		}
+	case MAP:
+		for _, kv := range o.(Map).mapElements() {
+			if HoldsFunction(kv.Key) || HoldsFunction(kv.Value) {
+				return true
+			}
+		}
+	}
+	return false
+}
+
 // Hashable in tem of Go map for cache key.
 func Hashable(o Object) bool {
 	switch o.Type() { //nolint:exhaustive // We have all the types that are hashable + default for the others.
